@@ -575,7 +575,16 @@ impl World {
     fn poll_frame(&mut self, r: u64) -> Option<bool> {
         let rem = self.remotes.get_mut(&r)?;
         let rx = rem.rx.as_mut()?;
-        match rx.next().now_or_never() {
+        // The byte channel's cooperative budget can answer Pending (with a self wake) although data is
+        // there; a real task would simply be polled again, so poll again before concluding "nothing".
+        let mut polled = rx.next().now_or_never();
+        for _ in 0..2 {
+            if polled.is_some() {
+                break;
+            }
+            polled = rx.next().now_or_never();
+        }
+        match polled {
             Some(Some(Ok(msg))) => {
                 let lane = msg.path.lane.to_string();
                 let node = msg.path.node.to_string();
@@ -615,7 +624,18 @@ impl World {
     fn read_targets(&mut self) -> u64 {
         let mut n = 0;
         for t in self.targets.iter_mut() {
-            while let Some(Some(Ok(msg))) = t.rx.next().now_or_never() {
+            loop {
+                let mut polled = t.rx.next().now_or_never();
+                for _ in 0..2 {
+                    if polled.is_some() {
+                        break;
+                    }
+                    polled = t.rx.next().now_or_never();
+                }
+                let msg = match polled {
+                    Some(Some(Ok(msg))) => msg,
+                    _ => break,
+                };
                 let body = match msg.envelope {
                     Operation::Command(b) => txt(b.as_ref()),
                     Operation::Link => "@link".to_string(),
@@ -675,23 +695,22 @@ impl World {
                     }
                     self.read_targets();
                 }
-                if inst.task.is_finished() {
-                    match inst.task.await {
-                        Ok(Ok(())) => log(json!({"e": "stopped", "result": "ok"})),
-                        Ok(Err(e)) => log(json!({"e": "stopped", "result": e})),
-                        Err(e) => log(json!({"e": "stopped", "result": format!("join error: {}", e)})),
-                    }
-                } else {
-                    inst.task.abort();
-                    log(json!({"e": "hang", "where": "stop"}));
+                let finished = inst.task.is_finished();
+                let result = if finished { Some(inst.task.await) } else { inst.task.abort(); None };
+                // frames written before the end are still readable: read them before the end is logged
+                let ids: Vec<u64> = self.remotes.keys().copied().collect();
+                for r in ids {
+                    while let Some(true) = self.poll_frame(r) {}
+                }
+                self.read_targets();
+                self.check_closed();
+                match result {
+                    Some(Ok(Ok(()))) => log(json!({"e": "stopped", "result": "ok"})),
+                    Some(Ok(Err(e))) => log(json!({"e": "stopped", "result": e})),
+                    Some(Err(e)) => log(json!({"e": "agent_panic", "what": format!("{}", e)})),
+                    None => log(json!({"e": "hang", "where": "stop"})),
                 }
             }
-            // frames written before the end are still readable
-            let ids: Vec<u64> = self.remotes.keys().copied().collect();
-            for r in ids {
-                while let Some(true) = self.poll_frame(r) {}
-            }
-            self.check_closed();
         }
     }
 }
@@ -749,7 +768,17 @@ async fn run_script(case: &Value) {
                             _ => RequestMessage::command(remote_id(r), path, body.as_bytes()),
                         };
                         // the request channel is large; a send that does not complete at once is a hang of the reader
-                        if tx.send(msg).now_or_never().is_none() {
+                        // (polled a few times: the byte channel's cooperative budget may answer Pending once)
+                        let mut fut = Box::pin(tx.send(msg));
+                        let mut done = false;
+                        for _ in 0..4 {
+                            if futures::poll!(fut.as_mut()).is_ready() {
+                                done = true;
+                                break;
+                            }
+                        }
+                        drop(fut);
+                        if !done {
                             log(json!({"e": "req_blocked", "r": r}));
                         }
                     }
@@ -829,16 +858,17 @@ async fn run_script(case: &Value) {
         if let Some(inst) = w.inst.as_ref() {
             if inst.task.is_finished() && k != "stop" && k != "kill" {
                 let inst = w.inst.take().unwrap();
-                match inst.task.await {
-                    Ok(Ok(())) => log(json!({"e": "stopped", "result": "ok", "spontaneous": true})),
-                    Ok(Err(e)) => log(json!({"e": "stopped", "result": e, "spontaneous": true})),
-                    Err(e) => log(json!({"e": "agent_panic", "what": format!("{}", e)})),
-                }
+                let result = inst.task.await;
                 let ids: Vec<u64> = w.remotes.keys().copied().collect();
                 for r in ids {
                     while let Some(true) = w.poll_frame(r) {}
                 }
                 w.check_closed();
+                match result {
+                    Ok(Ok(())) => log(json!({"e": "stopped", "result": "ok", "spontaneous": true})),
+                    Ok(Err(e)) => log(json!({"e": "stopped", "result": e, "spontaneous": true})),
+                    Err(e) => log(json!({"e": "agent_panic", "what": format!("{}", e)})),
+                }
             }
         }
     }
